@@ -433,10 +433,12 @@ pub fn run(ctx: &Ctx, evidence: Option<&PathBuf>) -> i32 {
 
     // ---- more pairs than any 16-bit quantity (size_hint must stay an upper bound) ---------------
     ctx.run_fixed("many-pairs", 3, |c| {
+        // (under Miri only a token size: the point of this workload is the count, not the bytes)
+        let small = c.ctx.miri();
         let b: Vec<u8> = match c.index {
-            0 => vec![0u8; 80_000],                                        // 40 000 empty pairs
-            1 => [1u8, 0, b'x'].iter().copied().cycle().take(210_000).collect(), // 70 000 pairs "x" = ""
-            _ => vec![0u8; 65_536 + 2],
+            0 => vec![0u8; if small { 600 } else { 80_000 }],                                        // 40 000 empty pairs
+            1 => [1u8, 0, b'x'].iter().copied().cycle().take(if small { 600 } else { 210_000 }).collect(), // 70 000 pairs "x" = ""
+            _ => vec![0u8; if small { 258 } else { 65_536 + 2 }],
         };
         c.l.evaluations += 1;
         match check_decode(&b) {
